@@ -1,6 +1,43 @@
-"""C12, C40, C42 -- family `writer`: spec/Writer (Ring, Writer, WriterTrace), spec/Dissolve, spec/Pools bound to
-internal/queue, writer.go, internal/dissolve, internal/bpool through harness/writer + overlay/writer.
-(docstring completed at the end of the file's development: see MUTATIONS below)"""
+"""C12, C40, C42 -- family `writer`.
+
+C12  spec/Writer/Ring.tla       internal/queue ring modelled concretely (nodes[0..cap-1], head, tail, cnt, size, initCap, grow /
+                                shrink rules of every Remove* variant, delayed-shrink timer) + refinement mapping to a FIFO
+     spec/Writer/Writer.tla     writer.go over the FIFO: producers (enqueue / enqueueMany: Add, size check, flush scheduling),
+                                writer goroutine (plain / WriteDelay), timer mode (timerScheduled, flush, reschedule), close(flush);
+                                exactness, flush-close, slow-consumer, no-lost-wake-up invariants; liveness under fairness
+     spec/Writer/RingSim.tla    -> harness `ring`: operation sequences replayed into the real queue, every op compared
+     spec/Writer/WriterTrace.tla <- harness `writer`: the real writer under 2 producers + closer, recorded traces validated
+C40  spec/Dissolve/Dissolve.tla queue + workers (Wait in two critical sections, Run, Requeue, Close discards); safety + liveness (WF)
+     spec/Dissolve/DissolveTrace.tla <- harness `dissolve`: real Dissolver with self-logging jobs
+C42  spec/Pools/Pools.tla       three size-classed pools over sync.Pool bags, user mutations, Get property; PoolsSim -> harness `pools`;
+                                PoolsTable -> harness `classes` (size-class functions vs the three implementations)
+
+Mutation testing (FRAMEWORK rule 3; scratch worktrees /tmp/writer-wt*, `VERIF_REPO=... ./check Cxx`, all removed afterwards).
+C12 -- 16 of 16 caught (exit 1):
+  resize copies from head+1 when wrapped (ring items)         resize copies q.nodes[1:tail] as second segment (ring: panic -> violation)
+  shrink/resize drops the last element (ring items, Size)     RemoveManyIntoShrink removes n+1 (ring items, Len, Size)
+  Remove does not decrement size (ring Size)                  RemoveManyInto does not decrement size (ring Size; writer slow-spurious; trace)
+  writer drains everything but writes only MaxMessagesInFrame (writer loss, stuck, flush-loss)
+  close(flush) writes the remainder asynchronously (flush-loss; trace CloseE rejected)
+  close(flush) drops the last remaining item (flush-loss)     flush() reschedules only when Len > frame (timer stuck)
+  flush() clears timerScheduled only when the queue is non-empty (timer stuck)
+  slow check >= instead of > (slow-spurious; trace)           enqueueMany compares Len() instead of Size() (slow-missed; trace)
+  delay path drops the first item of a batch (loss)           AddMany grows only once (phantom zero item, loss, dup)
+  doShrinkLocked shrinks when cnt <= k+1 (phantom zero item, loss)
+C40 -- 5 of 6 caught (exit 1): failed job not re-queued (stuck + trace); job re-queued after success (rerun-after-success + trace);
+  job re-queued after success only when the queue has one element (same); Add re-opens a closed queue (submit-after-close + trace);
+  Close keeps the queue and workers drain it (run-after-close: more late starts than workers + trace).
+  Not caught: Close sets closed but keeps cnt/nodes -- an equivalent mutant (Wait/Remove never reach the kept items).
+  A resize that loses a job panics inside a worker goroutine and kills the harness process: exit 2 (inconclusive), not 1.
+C42 -- 7 of 7 effective mutants caught (exit 1), on a tree with the putItemBuf fix: nextLogBase2 one class low for 2^i+1 (class table +
+  undersized); PutByteBuffer without Reset (dirty); prevLogBase2 rounds up (class table + undersized); byte-slices never reset
+  (dirty); prevLogBase2ByteSlices off by one at exact powers of two (class table + undersized); putItemBuf without clearing (dirty
+  items); getItemBuf one class low for 2^i+1 (panic in Get). Equivalent mutant: GetByteSlicesBuf without B[:0] (Put already resets).
+
+Genuine finding (C42, unchanged tree exits 1 with sig pools:items:dirty-after-short-put): putItemBuf clears only len(buf.B) entries,
+getItemBuf re-slices to the requested length, so a buffer returned with a shortened slice hands its old Items to the next user.
+Latent (no caller in writer.go shortens B). Fix: clear(buf.B[:cap(buf.B)]) in putItemBuf.
+"""
 import json
 import os
 
@@ -211,8 +248,45 @@ def c42(c):
 # ------------------------------------------------------------------------------------------------ registry
 CHECKS = {'C12': c12, 'C40': c40, 'C42': c42}
 
+_trusted = ' Trusted: TLC, lib/tlaparse.py, the harness comparison/monitor code, the overlay shims (plain forwarders).'
 META = {
-    'C12': dict(level='model_checking', text='placeholder', note='placeholder', technique='placeholder'),
-    'C40': dict(level='model_checking', text='placeholder', note='placeholder', technique='placeholder'),
-    'C42': dict(level='model_checking', text='placeholder', note='placeholder', technique='placeholder'),
+    'C12': dict(
+        level='model_checking',
+        text=('Two specifications. Ring.tla models internal/queue concretely (backing array, head, tail, cnt, size, initCap, the grow rule, the shrink rule of every '
+              'Remove* variant, FinishCollect and the delayed-shrink timer, Close/CloseRemaining) next to an abstract FIFO; TLC checks exhaustively that the ring refines the '
+              'FIFO, that every returned value is the FIFO prefix, and the Len/Size/Cap formulas. Writer.tla models writer.go over that FIFO with one action per critical '
+              'section (enqueue = Add, size check, flush scheduling; the writer goroutine with and without WriteDelay; timer mode; close(flush)) for 2 producers and a closer; '
+              'TLC checks written.batch.queued = enqueued in queue order until close or a write error, close(flush) delivers everything accepted, exactly the enqueue that sees '
+              'size > max is answered DisconnectSlow, nothing queued is ever left without somebody due to write it, and (fairness) everything queued is eventually written. '
+              'Binding: TLC-simulated operation sequences are replayed into the real queue comparing items, ok, Len, Size (Cap/head/tail as drift) after every operation; the '
+              'real writer, constructed as Client.startWriter does, runs thousands of seeded random schedules in all modes with a recording transport, an observable-only monitor '
+              'is evaluated on every run and recorded traces are validated by TLC as behaviours of Writer.tla (linearizability search over the unlogged inner steps).'),
+        note=('Bounds: ring exhaustive initCap {1,2} (thorough {1,2,3}), <=6 (9) items, batch {-1,1,2,3}, buffers {1,2,8}; writer exhaustive 2 producers + closer, <=3 items quick / 5 thorough, '
+              'frame {-1,1,2}, maxq {0,2}, one write error, modes plain/delay/timer; liveness config 3 items (thorough). Replay: 150/1500 sequences of 50 ops, capacities up to 64; '
+              '1500/12000 writer runs, 60/400 traces validated. Time is not modelled (timers may fire at any moment); the liveness clause on the real code is a 5 s bounded wait.' + _trusted),
+        technique='TLA+ refinement spec + TLC exhaustive; behaviour replay into internal/queue; trace validation + runtime monitor of the real writer'),
+    'C40': dict(
+        level='model_checking',
+        text=('Dissolve.tla models the dissolver as the code is written: FIFO, N workers with Wait split into its two critical sections, Run (start/end), re-Add after a failure, '
+              'Close that discards the queue and wakes everybody, Submit. TLC checks exhaustively: while open nothing is lost (exactly one copy of every unfinished job), a failed run '
+              're-queues, no job runs after it succeeded or twice at once, after Close nothing is dequeued or re-queued and each worker starts at most the job it already held; under weak '
+              'fairness and finite failures every submitted job eventually succeeds or the dissolver was closed, and workers exit after Close. The absolute reading of the statement '
+              '("every job submitted before Close runs until success") contradicts the design (Close drops queued jobs, documented in dissolve.go) and "nothing runs after Close" is '
+              'unreachable for a job already dequeued; both are recorded as assumptions, not demanded. Binding: the real Dissolver runs seeded scenarios with jobs that log their own '
+              'start/end/result; a monitor and a bounded-time quiescence check run on every execution and recorded traces are validated by TLC against DissolveTrace.tla.'),
+        note=('Bounds: exhaustive 2 workers, 3 jobs, <=1 failure each quick / <=2 thorough; liveness 2 jobs/1 failure quick, 3 jobs/2 failures thorough (no VIEW, no constraint). '
+              'Runs: 1-3 workers, 1-6 jobs, 0-3 failures; 1500/12000 runs, 120/800 traces validated. The ring buffer inside dissolve/queue.go is not modelled concretely (abstract FIFO).' + _trusted),
+        technique='TLA+ spec + TLC exhaustive (safety) and liveness under WF; trace validation + runtime monitor of the real Dissolver'),
+    'C42': dict(
+        level='model_checking',
+        text=('Pools.tla models the three pools (byte buffers, byte-slice lists, writer item buffers) with the size-class functions transcribed from the code, every class a bag that may '
+              'lose or withhold buffers (sync.Pool), and a user who may write, append (also beyond the capacity), replace, and -- in a separate configuration -- reslice the buffer before '
+              'Put, or Put buffers of his own (capacity not a power of two, zero, above the largest class). TLC checks for every Get: capacity >= requested length and empty (len 0; item '
+              'buffers: the `length` visible entries are zero Items), with the supporting pool invariant, over lengths {2^i-1, 2^i, 2^i+1} around the small classes and the largest class. '
+              'With reslicing the item-buffer model violates the property (model-level counterexample kept in reslice_items.cfg); the replay decides on the real code. Binding: the transcribed '
+              'size-class functions are compared with all three implementations over every 2^i-1, 2^i, 2^i+1; TLC-simulated Get/Write/Append/Reslice/Foreign/Put scripts are replayed into the '
+              'real functions on one locked thread with GC off (pool hits counted by pointer identity) and the property is evaluated on every Get.'),
+        note=('Bounds: exhaustive lengths {0..5} + around 2^11/2^12 (2^17/2^18 for bytes), one pooled buffer per kind quick / two thorough; scripts 300/3000 of 40 steps with lengths up to above the '
+              'largest class. Negative lengths and use-after-Put are outside the statement.' + _trusted),
+        technique='TLA+ spec + TLC exhaustive; function-table replay of the size-class functions; script replay into the real pools'),
 }
